@@ -618,6 +618,61 @@ def parser_pairs(rng, n):
     return out
 
 
+# ---- wiring: which expression reaches which port ------------------------------------------------------------
+# One anonymous component call with pairwise DISTINCT argument expressions and destinations, on drawn callee
+# templates.  The generator states the wiring the property text demands - input port k of the DECLARATION order gets
+# the k-th positional argument under `<==`, or the argument written with its name under the operator written with
+# it; destination j of the tuple gets output port j of the declaration order, `_` drops it - without building any
+# expansion.  lib/props/C18.py (wiring_oracle) reads the wiring back from the desugared template.
+ARG_POOL = [("a", "(var a (acc))"), ("b", "(var b (acc))"), ("c", "(var c (acc))"), ("v", "(var v (acc))"), ("w", "(var w (acc))"),
+            ("n", "(var n (acc))"), ("1", "(num 1)"), ("2", "(num 2)"), ("3", "(num 3)"), ("arr[0]", "(var arr (acc (aa (num 0))))"),
+            ("arr[1]", "(var arr (acc (aa (num 1))))"), ("cc.y", "(var cc (acc (ca y)))")]
+DEST_POOL = [("o", "o (acc)"), ("p", "p (acc)"), ("q", "q (acc)"), ("arr[2]", "arr (acc (aa (num 2)))"),
+             ("arr2[0][1]", "arr2 (acc (aa (num 0)) (aa (num 1)))"), ("varr[1]", "varr (acc (aa (num 1)))")]
+
+
+def wiring_programs(rng, n):
+    out = []
+    for i in range(n):
+        feats = set()
+        pre, table, ports = prelude(rng, feats)
+        t = rng.choice(list(table))
+        ins, outs, has_param = table[t]
+        args = rng.sample(ARG_POOL, len(ins))
+        named = bool(ins) and rng.random() < 0.6
+        ops = [rng.choice(OPS) if named else "<==" for _ in ins]
+        order = list(range(len(ins)))
+        if named:
+            rng.shuffle(order)
+            call_args = ", ".join("%s %s %s" % (ins[k], ops[k], args[k][0]) for k in order)
+        else:
+            call_args = ", ".join(a[0] for a in args)
+        call = "%s%s(%s)(%s)" % ("parallel " if rng.random() < 0.1 else "", t, "2" if has_param else "", call_args)
+        op = rng.choice(OPS)
+        dests = [d if rng.random() < 0.75 else ("_", None) for d in rng.sample(DEST_POOL, len(outs))]
+        if len(outs) == 0:
+            stmt = "%s;" % call
+        elif len(outs) == 1:
+            stmt = "%s %s %s;" % (dests[0][0], op, call) if rng.random() < 0.7 else "%s %s %s;" % (call, "==>" if op != "<--" else "-->", dests[0][0])
+            if "==>" in stmt:
+                op = "<=="
+            elif "-->" in stmt:
+                op = "<--"
+        else:
+            stmt = "(%s) %s %s;" % (", ".join(d[0] for d in dests), op, call)
+        wrap = rng.choice(["{S}", "{S}", "if (v == 0) {{ {S} }}", "for (var i = 0; i < 2; i++) {{ {S} }}",
+                           "for (var i = 0; i < 2; i++) {{ while (w < 2) {{ {S} w++; }} }}", "{{ {S} }}"])
+        src = c18gen.program("T", wrap.format(S=stmt), extra=EXTRA, prelude=pre)
+        if i % 4 == 0:
+            src = c18gen.split_program(src, i % 8 == 0) or src
+        out.append({"label": "wiring/%d" % i, "src": src, "statement": stmt, "template": t,
+                    # port -> (operator, expression reaching it)
+                    "inputs": {ins[k]: (OPTEXT[ops[k]], args[k][1]) for k in range(len(ins))},
+                    # destination -> (operator, port read)
+                    "outputs": {dests[j][1]: (OPTEXT[op], outs[j]) for j in range(len(outs)) if dests[j][1] is not None}})
+    return out
+
+
 # Fixed programs for shapes that a matrix of ONE form in ONE position cannot hold
 # (each was drawn by hand from the review's list; the random generator covers
 # their neighbourhood).
